@@ -99,6 +99,49 @@ pub fn i64_num(out: &mut Out, v: &Vocab, b: &Beh, rng: &mut Rng, max_assign: usi
     }
 }
 
+/// character level: one string (every white-space character in turn, also inside literals and names), the evaluators of the
+/// integer clause and of the float clause.  The string's tokens and tree are the specification's (spec/MCLexer.tla, evaluator num).
+pub fn chars_item(out: &mut Out, v: &Vocab, bv: &Value, idx: u64) {
+    if bv["v"].as_str() != Some("accept") { return; }
+    let tree = T::from_json(&bv["tree"]);
+    for rot in [0u64, 7, 13] {
+        let (text, asg, kinds, chars) = crate::engine::string_parts(bv, idx + rot, None);
+        if rot > 0 && !chars.iter().any(|c| c == "WS") { break; }
+        let ctx = json!({"chars": chars, "toks": kinds});
+        let claim = json!({"v": "accept"});
+        // float clause
+        if kinds.iter().all(|k| v.common["floatKinds"].contains(k)) {
+            for (pn, pf) in [(Number::Integer(3), 3.0f64), (Number::Float(-2.5), -2.5)] {
+                judge_num_f64(out, &text, &tree, &asg, &pn, pf, json!({"chars": chars, "toks": kinds, "clause": "num-f64"}), claim.clone());
+                if !kinds.iter().any(|k| k == "ans") { break; }
+            }
+        }
+        // integer clause
+        let int_lits = asg.lits.values().all(|(t, im)| !*im && t.chars().all(|c| c.is_ascii_digit()));
+        if int_lits && kinds.iter().all(|k| v.common["intKinds"].contains(k)) {
+            for p in [3i64, -7, i64::MIN] {
+                let s = I64Sem::new(64, p as i128);
+                let refv = eval(&s, &tree, &asg);
+                let in_scope = matches!(&refv, Ok(_)) && !s.flags.inexact_div.get();
+                let (oi, on) = two_calls(out, "i64", &Val::I(p), "num", &Val::N(Number::Integer(p)), &text, &claim, &ctx);
+                let key = h64(&("i64-num-chars", &text, p));
+                out.stats.distinct.insert(key);
+                if in_scope {
+                    out.stats.compared += 1;
+                    out.stats.nontrivial.insert(key);
+                    match (&oi, &on) {
+                        (Outcome::Ok(Val::I(x)), Outcome::Ok(Val::N(Number::Integer(y)))) if x == y => out.stats.matched += 1,
+                        (Outcome::Ok(Val::I(x)), other) if other.returned() =>
+                            out.finding("cross_int", "num", &text, &Val::N(Number::Integer(p)), &format!("Integer({}) (eval_i64 returns Ok({}))", x, x), &other.show(), ctx.clone()),
+                        _ => out.stats.matched += 1,
+                    }
+                }
+                if !kinds.iter().any(|k| k == "ans") { break; }
+            }
+        }
+    }
+}
+
 // ------------------------------------------------------------------------------------------- number ~ f64
 pub fn num_f64(out: &mut Out, v: &Vocab, b: &Beh, rng: &mut Rng, max_assign: usize, allfns: bool) {
     if b.verdict != "accept" || !b.renderable || b.numnum { return; }
